@@ -1212,3 +1212,189 @@ def big_badguess_scenario():
             "grid_seed": 11, "policy": "random", "dataseed": 77, "copies": [], "share_faults": [], "server_plans": {},
             "crafted": [],
             "reads": [[[2 * mib + mib // 2, 5000]], [[mib + 5, 1000]], [[3 * mib - 10, 10], [2 * mib + 1, 70000]], [[1, 10]]]}
+
+
+# ----------------------------------------------------------------------------- Segmentation (one read) with a fake node
+
+SEGERR = {"WrongSegmentError": "WrongSegment", "BadSegmentNumberError": "BadSegmentNumber",
+          "DownloadStopped": "DownloadStopped", "AssertionError": "Assertion"}
+
+
+class _SegNode:
+    def __init__(self, run, filesize, guess):
+        self.run = run
+        self._si_prefix = b"fakefake"
+        self.segment_size = None
+        self.guessed_segment_size = guess
+
+        class _V:
+            size = filesize
+        self._verifycap = _V()
+
+    def get_segment(self, segnum, logparent=None):
+        from twisted.internet import defer
+        run = self.run
+        run.calls.append("get=%d" % segnum)
+        run.d = defer.Deferred()
+
+        class _C:
+            def cancel(self):
+                run.calls.append("cancel")
+                run.d = None
+        return (run.d, _C())
+
+
+class SegRun:
+    """One real Segmentation under a script (tokens of the `seg` line of drv_c46)."""
+
+    def __init__(self, segsize, guess, offset, size):
+        from allmydata.immutable.downloader import segmentation as sgm
+        self.sgm = sgm
+        self.calls = []
+        self.queue = []
+        self.d = None
+        self.result = None
+        self.segsize = segsize
+        self.pause_in_write = False
+        self.node = _SegNode(self, offset + size + 1000, guess)
+        run = self
+
+        class _Consumer:
+            def registerProducer(self, p, streaming):
+                pass
+
+            def unregisterProducer(self):
+                pass
+
+            def write(self, data):
+                run.calls.append("write=%d+%d" % (run.seg._offset - len(data), len(data)))
+                if run.pause_in_write:
+                    run.seg.pauseProducing()
+
+        class _Ev:
+            def update(self, *a):
+                pass
+        self._saved = sgm.eventually
+        sgm.eventually = lambda f, *a, **k: self.queue.append((f, a, k))
+        self.seg = sgm.Segmentation(self.node, offset, size, _Consumer(), _Ev(), None)
+
+    def close(self):
+        self.sgm.eventually = self._saved
+
+    def _known(self, k):
+        self.node.segment_size = self.segsize if k == "1" else None
+
+    def apply(self, tok):
+        from allmydata.immutable.downloader.common import BadSegmentNumberError
+        del self.calls[:]
+        p = tok.split(":")
+        seg = self.seg
+        if p[0] == "S":
+            self._known(p[1])
+            d = seg.start()
+            d.addCallbacks(lambda r: setattr(self, "result", "done") or self.calls.append("done"),
+                           lambda f: setattr(self, "result", "err:" + SEGERR.get(f.value.__class__.__name__, "other")) or
+                           self.calls.append("errback=" + SEGERR.get(f.value.__class__.__name__, "other")))
+        elif p[0] == "g":
+            self._known(p[4])
+            self.pause_in_write = (p[3] == "1")
+            d, self.d = self.d, None
+            if d is None:
+                self.calls.append("no-outstanding-request")
+            else:
+                d.callback((int(p[1]), b"x" * int(p[2]), 0.0))
+            self.pause_in_write = False
+        elif p[0] == "f":
+            self._known(p[2])
+            d, self.d = self.d, None
+            if d is None:
+                self.calls.append("no-outstanding-request")
+            else:
+                d.errback(BadSegmentNumberError("x") if p[1] == "B" else RuntimeError("x"))
+        elif p[0] == "x":
+            seg.stopProducing()
+        elif p[0] == "p":
+            seg.pauseProducing()
+        elif p[0] == "r":
+            seg.resumeProducing()
+        elif p[0] == "t":
+            self._known(p[1])
+            (f, a, k) = self.queue.pop(0)
+            f(*a, **k)
+        else:
+            raise ValueError(tok)
+        act = "-" if seg._active_segnum is None else str(seg._active_segnum)
+        return "|".join([",".join(self.calls) or "-", str(seg._offset), str(seg._size), "1" if seg._alive else "0",
+                         "1" if seg._hungry else "0", act, str(len(self.queue)), self.result or "-"])
+
+
+def gen_seg_script(rng, max_events=60):
+    """seeded environment of one read: the node answers each get_segment with the right segment, a wrong
+    one (segment number computed from a wrong guess), BadSegmentNumberError or another failure; the
+    consumer pauses / resumes / stops."""
+    segsize = rng.choice([4, 10, 16, 64])
+    guess = rng.choice([3, 4, 10, 16, 64, 1000])
+    filesize = rng.choice([1, 5, 30, 100, 300])
+    offset = rng.randrange(0, filesize)
+    size = rng.randrange(1, filesize - offset + 1)
+    nseg = -(-filesize // segsize)
+    known = rng.random() < 0.3
+    R = SegRun(segsize, guess, offset, size)
+    R.node._verifycap.size = filesize
+    toks, digs = [], []
+
+    def do(tok):
+        toks.append(tok)
+        digs.append(R.apply(tok))
+    try:
+        do("S:%d" % known)
+        while len(toks) < max_events and R.result is None:
+            acts = []
+            if R.d is not None:
+                acts += ["answer"] * 6
+            if R.queue:
+                acts += ["turn"] * 3
+            if R.seg._hungry:
+                acts += ["pause"]
+            else:
+                acts += ["resume"] * 3
+            if rng.random() < 0.05:
+                acts += ["stop"]
+            a = rng.choice(acts)
+            if a == "answer":
+                segnum = R.seg._active_segnum
+                r = rng.random()
+                known = True if r < 0.9 else known        # an answer normally means the UEB (segment size) is known
+                if segnum >= nseg and r < 0.8:
+                    do("f:B:%d" % known)
+                elif r < 0.05:
+                    do("f:O:%d" % known)
+                elif r < 0.12:
+                    do("g:%d:%d:0:%d" % (rng.randrange(0, filesize), rng.randrange(0, 2 * segsize), known))   # arbitrary segment
+                else:
+                    sn = min(segnum, nseg - 1)
+                    st = sn * segsize
+                    do("g:%d:%d:%d:%d" % (st, min(segsize, filesize - st), rng.random() < 0.15, known))
+            elif a == "turn":
+                do("t:%d" % known)
+            elif a == "pause":
+                do("p")
+            elif a == "resume":
+                do("r")
+            else:
+                do("x")
+        info = {"segsize": segsize, "guess": guess, "offset": offset, "size": size, "filesize": filesize,
+                "result": R.result, "outstanding": R.d is not None, "hungry": bool(R.seg._hungry),
+                "queued": len(R.queue), "written": sum(int(c.split("+")[1]) for d in digs for c in d.split("|")[0].split(",")
+                                                      if c.startswith("write="))}
+    finally:
+        R.close()
+    return (segsize, guess, offset, size), toks, digs, info
+
+
+def replay_seg_script(params, toks):
+    R = SegRun(*params)
+    try:
+        return [R.apply(t) for t in toks], R.result
+    finally:
+        R.close()
